@@ -81,6 +81,9 @@ type StoreFail struct {
 	Method string `json:"method"`
 	Nth    int    `json:"nth"`
 	Mode   int    `json:"mode"`
+	// Len > 1 makes it an outage: calls Nth .. Nth+Len-1 of Method fail (across restarts: the
+	// count belongs to the store, not to the process).
+	Len int `json:"len,omitempty"`
 	// OpTag, when set, makes Nth count the calls of Method made on behalf of the request of that
 	// name only (the ledger is then the request's): the fault follows the request wherever the
 	// schedule -- or the removal of other requests, as in the C14 differential -- puts it.
